@@ -149,8 +149,9 @@ def gen_rawreq(rng, tr, connreq, hostile_first=False):
     """ordinary traffic, then raw requests; the server drops the client at the first one it refuses, so a case holds
     only a few of them; the service must stay usable (ctl) and a later raw handshake peer changes nothing."""
     req_max = rng.choice([8192, 8192, 13000, 20000, 16384 - 13])
-    mx = max(req_max, CONNRESP)
-    ops = ["open %s %d" % (tr, req_max), "census"]
+    enforced = rng.choice([0, 0, 0, req_max + 1, 2 * req_max, 4096, 65536]) if rng.random() < 0.5 else 0
+    mx = max(req_max, CONNRESP, enforced)
+    ops = ["open %s %d" % (tr, req_max) + (" %d" % enforced if enforced > 0 else ""), "census"]
     tag = 0
     if not hostile_first:
         for _ in range(rng.randint(0, 6)):
@@ -229,6 +230,10 @@ def corpus(connreq):
         # raw handshake peers while a client is connected and has requests queued: nothing of it is touched
         cs.append(["open %s 8192" % tr, "census", "cs 100 1", "cs 200 2", "hs g 50 1", "hs p 10 8192", "hs v 8192", "hs a 1 14 10", "t", "hx 0", "hx 1",
                    "hx 2", "census", "cs 64 3", "t", "ctl", "close"])
+        # server-enforced buffer size above the figure in the client's handshake: every connection buffer must be sized by the
+        # negotiated maximum, truthful requests between the two figures stay inside them
+        cs.append(["open %s 16384 65536" % tr, "census", "cs 16385 1", "t", "cs 32768 2", "t", "cs 65535 3", "t", "cs 65536 4", "t",
+                   "rq 65536 65536 1 5", "t", "rq 65537 65537 1 6", "t", "t", "ctl", "close"])
     return cs
 
 
